@@ -54,6 +54,51 @@ func runWithWatchdog(d time.Duration, f func()) (returned bool) {
 	}
 }
 
+// libraryBusy reports whether some goroutine with a library frame is computing (runnable,
+// running or helping the collector) rather than blocked.
+func libraryBusy() bool {
+	for _, g := range libraryGoroutines() {
+		head := g
+		if i := strings.IndexByte(g, '\n'); i >= 0 {
+			head = g[:i]
+		}
+		if strings.Contains(head, "[runnable") || strings.Contains(head, "[running") || strings.Contains(head, "[GC ") {
+			return true
+		}
+	}
+	return false
+}
+
+// runWithStuckWatchdog is runWithWatchdog for "does not return" verdicts: when d has passed and
+// a library goroutine is still computing (a loaded machine, a huge allocation being cleared), it
+// keeps waiting - up to a minute more - until f returns or every library goroutine is blocked.
+// Only the second outcome is a stuck state.
+func runWithStuckWatchdog(d time.Duration, f func()) (returned bool) {
+	done := make(chan struct{})
+	go func() {
+		defer close(done)
+		f()
+	}()
+	select {
+	case <-done:
+		return true
+	case <-time.After(d):
+	}
+	for i := 0; i < 60 && libraryBusy(); i++ {
+		select {
+		case <-done:
+			return true
+		case <-time.After(time.Second):
+		}
+	}
+	select {
+	case <-done:
+		return true
+	default:
+		return false
+	}
+}
+
 // simDialer hands out simulated connections for ch.Dial / chpool.
 type simDialer struct {
 	mu    sync.Mutex
